@@ -287,7 +287,7 @@ impl Prop for C13 {
     fn runs(&self, tier: Tier) -> u64 {
         match tier {
             Tier::Quick => 200_000,
-            Tier::Thorough => 4_000_000,
+            Tier::Thorough => 1_200_000,
             Tier::Tiny => 50,
         }
     }
@@ -313,8 +313,9 @@ impl Prop for C13 {
         v.into_iter().map(String::from).collect()
     }
 
-    fn gen(&self, seed: u64, run: u64, _tier: Tier) -> Trace {
+    fn gen(&self, seed: u64, run: u64, tier: Tier) -> Trace {
         let mut rng = Rng::new(mix(seed, "C13", run));
+        let deep = tier == Tier::Thorough && run % 4 == 3;
         // one tree per group of runs (bounded leak of real trees is irrelevant: model only here)
         let mut trng = Rng::new(mix(seed, "C13-tree", run / 64));
         let tree = gen_tree(&mut trng, true, 2, 3, 1);
@@ -353,7 +354,7 @@ impl Prop for C13 {
         let w_corrupt = *rng.pick(&[0u32, 1, 2]);
         let w_read = *rng.pick(&[1u32, 2]);
         let w_typeerr = *rng.pick(&[0u32, 1, 2]);
-        let nmax = *rng.pick(&[10usize, 25, 60]);
+        let nmax = if deep { 250 } else { *rng.pick(&[10usize, 25, 60]) };
         let nsteps = rng.urange(5, nmax);
         let root = tc.root.clone();
         let mut g = HistGen {
